@@ -223,6 +223,10 @@ func (t *Template) lookupAndEscapeTemplate(name string) (tmpl *Template, err err
 // prefixed by the string "; defined templates are: ". If there are none,
 // it returns the empty string. Used to generate an error message.
 func (t *Template) DefinedTemplates() string {
+	// Hold the name space lock so that the listing cannot be taken in the
+	// middle of a commit that is adding derived templates one by one.
+	t.nameSpace.mu.Lock()
+	defer t.nameSpace.mu.Unlock()
 	return t.text.DefinedTemplates()
 }
 
